@@ -4,6 +4,8 @@ CONSTANTS
   MaxLen = 1
   Keys <- GenKeys
   Mech = "ok"
+  MaxStmts = 1
+  QualOpts <- QNone
 INIT GInit
 NEXT GNext
 INVARIANT Emit
